@@ -120,3 +120,11 @@ SHARDS.update({
     "urwid/vterm.py:TermCanvas.csi_set_attr": (12, 6),
     "urwid/vterm.py:TermCanvas.sgi_to_attrspec": (6, 4),
 })
+
+SHARDS.update({
+    # (three functions of ~20 s each on one core: two shards keep each below the critical path of the property's
+    #  quick run without multiplying the shared prefix work)
+    "urwid/widget/pile.py:Pile._get_fixed_rows_sizes": (2, 5),
+    "urwid/widget/columns.py:Columns._get_fixed_column_sizes": (2, 5),
+    "urwid/widget/columns.py:Columns.get_column_sizes#sized": (2, 5),
+})
